@@ -280,6 +280,7 @@ SPECS["C10"][1].extend([
    ("C10_source_emplace_is_the_model", "src_TaskList_emplace_FL", _TLT % ("emplace(origin, destination)", "emplace")),
    ("C10_source_remove_is_the_model", "src_TaskList_remove_FL", _TLT % ("remove(i)", "remove")),
    ("C10_source_clear_is_the_model", "src_TaskList_clear", "... and clear() resets exactly the four indices"),
+   ("C10_source_every_history", "src_TaskList_every_history", "over whole histories: any in-contract sequence of emplace / remove / clear from a freshly constructed list, executed by running the translated member functions one after the other on the object (src_run; None would be a fault), never faults and yields, object for object, the model's run - to which the invariant (tl_run_FL) and the no-leak / exact-capacity theorem (emplace_all_spec) above apply"),
 ])
 
 _NF = ("index safety of the code itself (DESIGN.md 4.7): the interpreter of Model/Cxx.v returns a fault for an element access outside its array, a shift by a negative amount or by at least the width, "
